@@ -18,12 +18,24 @@ class Run:
         self.paths_total = 0
         self._rule_cache = {}
 
-    def paths(self, cls: ClassInfo, op: str, unroll: int = None) -> List[Path]:
+    def paths(self, cls: ClassInfo, op: str, unroll: int = None, max_steps: int = None) -> List[Path]:
         u = unroll if unroll is not None else self.unroll
         k = (cls.qualname, op, u)
         if k not in self._facts:
             ctx = Ctx(self.repo, unroll=u)
-            ps = analyse_method(ctx, cls, op)
+            if max_steps is not None:
+                ctx.max_steps = max_steps
+            elif u >= 2:
+                ctx.max_steps = 20000
+            try:
+                ps = analyse_method(ctx, cls, op)
+            except AnalysisError:
+                if u < 2 or max_steps is not None:
+                    raise
+                # deep unrolling is an optional refinement: fall back to one iteration
+                self.imprecise.append(f"{cls.name}.{op}: unrolling loops {u} times exceeds the step budget; analysed with one iteration")
+                ctx = Ctx(self.repo, unroll=1)
+                ps = analyse_method(ctx, cls, op)
             for n in ctx.imprecise:
                 msg = f"{cls.name}.{op}: {n}"
                 if msg not in self.imprecise:
@@ -79,3 +91,19 @@ def op_targets(path: Path, op: str, include_failed=False) -> List[str]:
 
 def normal(paths: List[Path]) -> List[Path]:
     return [p for p in paths if p.status == "ret"]
+
+
+def cond_pol(conds, base: str, contains: bool = False):
+    """Polarity (True/False) with which the pure condition ``base`` holds among
+    ``conds`` (a path's conditions), after folding ``not`` / ``is not`` /
+    ``not in`` into the polarity; None when the path never tests it.  With
+    ``contains`` the first condition whose normalised term *contains* base is used
+    (only for conjunction-free tests)."""
+    from .interp import Frame
+    for c in conds:
+        if not c[2]:
+            continue
+        k, pol = Frame.norm_cond(c[2], c[1])
+        if k == base or (contains and base in k and not k.startswith("and(") and not k.startswith("or(")):
+            return pol
+    return None
